@@ -26,7 +26,7 @@ def remain(name):
     return str(sum(1 for r in rows if r['compiles'] and not r['violating']))
 
 
-vals['DELREMAIN'] = remain('deletions_rerun.jsonl')
+vals['DELREMAIN'] = remain('deletions_rerun2.jsonl' if os.path.exists(os.path.join(V, 'survey', 'deletions_rerun2.jsonl')) else 'deletions_rerun.jsonl')
 vals['SWREMAIN'] = remain('swallow_rerun.jsonl')
 if os.path.exists(os.path.join(V, 'survey', 'deletions2_rerun2.jsonl')):
     vals['DEL2REMAIN'] = remain('deletions2_rerun2.jsonl')
